@@ -221,7 +221,13 @@ def run(ctx):
     from ..extras import passprog
     pp = passprog.programs(ctx)
     ctx.rng.shuffle(pp)
-    for name, t in pp[:400 if quick else 6000]:
+    # the same share for every module (their program counts differ by three orders of magnitude)
+    bymod = {}
+    for name, t in pp:
+        bymod.setdefault(re.sub(r"\d+$", "", name), []).append((name, t))
+    share = (400 if quick else 6000) // max(1, len(bymod))
+    pp = [x for k in sorted(bymod) for x in bymod[k][:share]]
+    for name, t in pp:
         for p in (ctx.rng.sample(profiles, 2) if quick else profiles):
             jid = "profile|%s|pass/%s" % (os.path.basename(p), name)
             jobs.append((unc, tmp, len(jobs), jid, t.encode(), "C", p, True))
